@@ -520,14 +520,15 @@ fn derive_func_op_shape(def: &FuncOpDef, symbol_table: &mut BTreeMap<Rc<str>, Sh
             // target must be a list, return type is same list type
             match &target_shape {
                 Shape::List(_) => target_shape,
-                Shape::Hole(_) => Shape::List(NarrowedShape {
+                // an unknown target may be a list, a tuple or a string: so is the result
+                Shape::Hole(_) => Shape::Narrowed(NarrowedShape {
                     pos: pos.clone(),
                     types: NarrowingShape::Any,
                 }),
                 Shape::Narrowed(NarrowedShape {
                     types: NarrowingShape::Any,
                     ..
-                }) => Shape::List(NarrowedShape {
+                }) => Shape::Narrowed(NarrowedShape {
                     pos: pos.clone(),
                     types: NarrowingShape::Any,
                 }),
